@@ -164,6 +164,9 @@ def scenario(c, inst):
         else:
             st, r = run(a.integrate, callback=spans.cap_callback(c, cap + 2, kind))
     if st != "ok":
+        if inst.get("events") or inst.get("terminal_event"):
+            from .events_common import oracle_interface_mismatch
+            oracle_interface_mismatch(getattr(r, "__cause__", None))      # (the stub no longer fits handle_events' interface: inconclusive)
         return
     T = list(a.t)
     Y = [a.y[i] for i in range(len(T))]
